@@ -51,6 +51,16 @@ func condPolarity(cond ssa.Value, src srcPred, kind string, depth int) (found bo
 	if depth > 8 {
 		return false, false
 	}
+	// the test extracted into an unexported predicate helper (one return, one expression): read it as written there
+	if cl, ok := cond.(*ssa.Call); ok {
+		if h := plainHelper(cl.Call.StaticCallee()); h != nil && h.Signature.Results().Len() == 1 {
+			if rets := returnsOf(h); len(rets) == 1 {
+				if f, p := condPolarity(retVal(rets[0], 0), src, kind, depth+1); f {
+					return f, p
+				}
+			}
+		}
+	}
 	switch x := cond.(type) {
 	case *ssa.UnOp:
 		if x.Op == token.NOT {
